@@ -128,7 +128,7 @@ PLAN = {
               "refusing objects larger than the destination with TooLong; a SEGMENTED answer returns the decoding of the concatenation of the segments' data parts "
               "(length-3 bytes each, the 7-byte minimum cut by segment_data_size), requested with toggle bits 0,1,0,.. and counters in 1..=7, ending at the first "
               "segment marked last (ghost sequences of requests/replies carried through the loop); SdoNormal::upload / SdoSegmented::upload / SdoExpedited::download field values",
-        note="relative to the spec encodings (the device is not modelled); array helpers are not under contract; the field decoders of the two reply shapes declared inside "
+        note="relative to the spec encodings (the device is not modelled); the array helpers are extracted too (sdo_write_array: count cleared, entry k to sub-index k+1 in order, count written last, <= 254 entries; sdo_read_array: a count above the capacity is an error, one read per sub-index 1..=count); the field decoders of the two reply shapes declared inside "
              "mailbox_write_read (HeadersRaw, EmergencyData) are assumed to decode what their #[wire] attributes say (a harness cannot name a fn-local type); "
              "wait_for_mailboxes / wait_for_mailbox_response are extracted whole as well (rule R18): (read, write) mailbox pair in that order, stale-mailbox drain of at most 10 "
              "rounds, both polling loops inside their mailbox_echo / mailbox_response timeout scope (termination, assumption A-TIME-1), the reply is a checked read of exactly the read "
